@@ -112,6 +112,35 @@ def run(ctx):
                 break
     if snapshot_shared() != shared0:
         fail("the built-in style map or the shared document singletons were modified by conversions", {"api": "mammoth.options._default_style_map"})
+    # ---- interpreter-global state: what every other thread of the process sees must be the same before, DURING (observed from a
+    # transform_document callback, which runs in the middle of a conversion) and after a conversion
+    import sys
+
+    def global_state():
+        import locale
+        import warnings
+        return {"recursion_limit": sys.getrecursionlimit(), "cwd": os.getcwd(), "environ": dict(os.environ), "umask_free": True,
+                "locale": locale.setlocale(locale.LC_ALL), "warning_filters": len(warnings.filters), "stdout": id(sys.stdout), "stderr": id(sys.stderr),
+                "int_max_str_digits": sys.get_int_max_str_digits() if hasattr(sys, "get_int_max_str_digits") else None}
+    for i in range(min(ndocs, 6)):
+        before = global_state()
+        seen = []
+
+        def spy(document):
+            seen.append(global_state())
+            return document
+        for fn in (mammoth.convert_to_html, mammoth.convert_to_markdown):
+            _safe(lambda: fn(io.BytesIO(docs[i][1]), transform_document=spy))
+        _safe(lambda: mammoth.extract_raw_text(io.BytesIO(docs[i][1])))
+        ctx.count(3)
+        after = global_state()
+        for label, st in [("during", x) for x in seen] + [("after", after)]:
+            diff = sorted(k for k in before if st.get(k) != before[k])
+            if diff:
+                fail("a conversion changed interpreter-wide state (%s) %s it ran: every other thread of the process sees that" % (", ".join(diff), "while" if label == "during" else "after"),
+                     {"api": "mammoth.convert_to_html(transform_document=spy)", "document": i, "changed": diff,
+                      "before": {k: str(before[k])[:80] for k in diff}, "observed": {k: str(st.get(k))[:80] for k in diff}})
+                break
     # ---- repeated calls on one file object
     with A.Workdir() as wd:
         for i in range(min(ndocs, 8)):
